@@ -501,7 +501,57 @@ func runC09(idx int, rng *rand.Rand, tier string) []Case {
 			}
 		}
 	}
-	sort.Slice(cuts, func(i, j int) bool { return cuts[i][0] < cuts[j][0] })
+	// the same cuts read the way the report/encode/plot commands read a file: format detection
+	// first (a stream the detector refuses yields no records), and through the encode command itself
+	same := func(back []vegeta.Result) int64 {
+		if len(back) > n {
+			return 0
+		}
+		for i := range back {
+			if !back[i].Equal(rs[i]) {
+				return 0
+			}
+		}
+		return 1
+	}
+	nAuto, nCLI := 0, 0
+	if f != 1 {
+		var ks []int
+		for i := 0; i < 6; i++ {
+			ks = append(ks, rng.Intn(len(b)+1))
+		}
+		for _, o := range offs {
+			ks = append(ks, int(o), int(o)-1, int(o)+1+rng.Intn(8))
+		}
+		for _, k := range ks {
+			if k < int(offs[0]) || k > len(b) {
+				continue // before the first whole record there is nothing to detect the format by
+			}
+			var back []vegeta.Result
+			if dec := vegeta.DecoderFor(bytes.NewReader(b[:k])); dec != nil {
+				back, _ = decodeAll(dec, n)
+			}
+			cuts = append(cuts, [3]int64{int64(k), int64(len(back)), same(back)})
+			nAuto++
+		}
+		if idx%8 == 3 {
+			for i := 0; i < 3; i++ {
+				k := int(offs[0]) + rng.Intn(len(b)-int(offs[0])+1)
+				cmd := exec.Command(os.Getenv("VERIF_VEGETA"), "encode", "-to", "json")
+				cmd.Stdin = bytes.NewReader(b[:k])
+				var outb bytes.Buffer
+				cmd.Stdout = &outb
+				cmd.Run() // a torn tail makes the command fail after the whole records: only what it wrote counts
+				back, _ := decodeAll(vegeta.NewJSONDecoder(bytes.NewReader(outb.Bytes())), n)
+				if tail := outb.Bytes(); len(tail) > 0 && tail[len(tail)-1] != '\n' {
+					back = append(back, vegeta.Result{}) // a torn line in the output counts as a record that was never written
+				}
+				cuts = append(cuts, [3]int64{int64(k), int64(len(back)), same(back)})
+				nCLI++
+			}
+		}
+	}
+	sort.SliceStable(cuts, func(i, j int) bool { return cuts[i][0] < cuts[j][0] })
 	w.I(len(cuts))
 	for _, x := range cuts {
 		w.Z(x[0]); w.Z(x[1]); w.Z(x[2])
@@ -509,6 +559,6 @@ func runC09(idx int, rng *rand.Rand, tier string) []Case {
 	w.Bool(true)
 	c.Tag = "cut." + formats[f] + ";nt"
 	c.Dist = fmt.Sprintf("cut/%s/n%d/bytes%d", formats[f], sizeClass(n), sizeClass(len(b)))
-	c.Sample = map[string]interface{}{"format": formats[f], "records": n, "bytes": len(b), "cuts": len(cuts), "boundaries": offs}
+	c.Sample = map[string]interface{}{"format": formats[f], "records": n, "bytes": len(b), "cuts": len(cuts), "of_them_through_format_detection": nAuto, "of_them_through_the_encode_command": nCLI, "boundaries": offs}
 	return []Case{c}
 }
